@@ -65,6 +65,7 @@ func init() {
 func runC13(p *chk.Prog, r *chk.Report) {
 	c13SpamScope(p, r)
 	c13Reply(p, r)
+	c13KeepsServing(p, r)
 	c13Verdict(p, r)
 	c13Refcount(p, r)
 	c13Gratuitous(p, r)
@@ -759,4 +760,72 @@ func c13SpamScope(p *chk.Prog, r *chk.Report) {
 		}
 	}
 	x.Check("spamLoop:queued-entry-replaced-by-the-latest-advertisement", pos, ok, "", "an event for an address that is already queued can leave the queued advertisement as it was (only its deadline moves): the gratuitous announcements keep the interface scope of an earlier announcement")
+}
+
+// c13KeepsServing: a responder's run loop ends on dropReasonClosed and nothing starts it again while the interface
+// stays, so processRequest may answer dropReasonClosed only when the responder was closed (the receive from its
+// `closed` channel) or the socket reported io.EOF - not for any other failed read (a truncated frame that the parser
+// reports as io.ErrUnexpectedEOF, say): one such frame would silence the node for every address it announces.
+func c13KeepsServing(p *chk.Prog, r *chk.Report) {
+	x := r.Rule("KEEPS-SERVING", "B path", "arpResponder.processRequest and ndpResponder.processRequest answer dropReasonClosed (which ends the responder's run loop for good) only in the select case that receives from the responder's closed channel, or behind errors.Is(err, io.EOF) / err == io.EOF alone for the error of the read", 2)
+	for _, typ := range []string{"arpResponder", "ndpResponder"} {
+		f := need(x, p, "internal/layer2", typ, "processRequest")
+		if f == nil {
+			continue
+		}
+		g := f.Graph()
+		var closedCases []*ast.CommClause
+		ast.Inspect(f.Body, func(n ast.Node) bool {
+			cc, ok := n.(*ast.CommClause)
+			if !ok || cc.Comm == nil {
+				return true
+			}
+			var rx ast.Expr
+			switch c := cc.Comm.(type) {
+			case *ast.ExprStmt:
+				rx = c.X
+			case *ast.AssignStmt:
+				if len(c.Rhs) == 1 {
+					rx = c.Rhs[0]
+				}
+			}
+			if u, isU := ast.Unparen(rx).(*ast.UnaryExpr); isU && u.Op == token.ARROW && f.MatchWith("RECV.closed", u.X, chk.H("RECV", isRecv(f))) != nil {
+				closedCases = append(closedCases, cc)
+			}
+			return true
+		})
+		eof := chk.GAnyOf(g.GPat(true, "errors.Is(ERR, io.EOF)"), g.GPat(true, "ERR == io.EOF"))
+		n := 0
+		ok, at := true, f.Pos()
+		for _, rt := range g.Returns() {
+			res := retResults(rt)
+			if len(res) != 1 {
+				continue
+			}
+			for _, form := range valueForms(g, f, res[0], rt, 4) {
+				if form.E == nil || !isObjNamed(f, "internal/layer2.dropReasonClosed")(form.E) {
+					continue
+				}
+				n++
+				node := rt.Node
+				if form.At.B != nil {
+					node = form.At.Node
+				}
+				inClosed := false
+				for _, cc := range closedCases {
+					if node != nil && cc.Pos() <= node.Pos() && node.End() <= cc.End() {
+						inClosed = true
+					}
+				}
+				site := rt
+				if form.At.B != nil {
+					site = form.At
+				}
+				if !inClosed && !g.Dominated(site, eof) {
+					ok, at = false, site.Pos()
+				}
+			}
+		}
+		x.Check(typ+".processRequest:closed-only-when-closed-or-eof", at, ok && n >= 1, "", "the responder can report dropReasonClosed - and its run loop end for good - for a failed read that is neither the responder being closed nor io.EOF (a malformed frame, say): the node then stops answering for every address it announces on that interface")
+	}
 }
